@@ -90,6 +90,9 @@ COLD_CORPUS = [
     (['std', 'structseq', 'stat_result', [['opaque', 3]] + [['int', j] for j in range(1, 10)]], {}),
     (['std', 'structseq', 'terminal_size', [['int', 80], ['int', 24]]], {}),
     (['std', 'structseq', 'terminal_size', [['int', 80], ['opaque', 4]]], {}),
+    # a field with a printer of its own whose __repr__ raises (the struct sequence's repr cannot even be taken)
+    (['std', 'struct_time_x', [['reprraises', 1]] + [['int', j] for j in range(1, 9)]], {}),
+    (['list', [['std', 'structseq', 'terminal_size', [['reprraises', 2], ['int', 24]]], ['reprraises', 3]]], {}),
     (['std', 'structseq', 'times_result', [['float', '0.5'], ['float', '0.25'], ['float', '0.0'], ['float', '0.0'], ['float', '17.0']]], {}),
     # a struct sequence whose repr cannot be parsed (D26: printed differently before / after the field names were resolved)
     (['std', 'struct_time_x', [['opaque', 1]] + [['int', j] for j in range(1, 9)]], {}),
@@ -148,7 +151,10 @@ def snapshot(v, seen=None):
         return (tn, repr(v.func), tuple(snapshot(x, seen) for x in v.args), tuple((k, snapshot(x, seen)) for k, x in v.keywords.items()))
     if isinstance(v, BaseException):
         return (tn, tuple(snapshot(x, seen) for x in v.args))
-    return (tn, repr(v))
+    try:
+        return (tn, repr(v))
+    except Exception:
+        return (tn, 'no-repr', getattr(v, '__dict__', None) and sorted((k, repr(x)) for k, x in v.__dict__.items()))
 
 
 def fixed_cases():
